@@ -1,0 +1,7 @@
+//go:build !verif
+
+package ctree
+
+// verifPoint is a schedule point used by the verification harness (build tag
+// verif); without the tag it is empty and inlined away.
+func verifPoint(string) {}
